@@ -13,10 +13,15 @@
       (it stays in the unresolved set that the final error lists);
     - [C10_rounds]: at most 1 + #unresolved rounds (from C12);
     - nothing dropped: [function_build_spec] (C05) keeps every parameter and the return type.
+    - [C10_stuck_set_is_order_independent]: for every input meeting the side conditions of C09.v, if
+      the model's loop ends without progress under one schedule it does so under every schedule,
+      and lists the same set of items (so the set of stuck items is a function of the input);
     NOT PROVED: N1/N2 for the model's attempt as a whole (partial).  The monitor decides the property
     on the real implementation against the graph-theoretic expectation. *)
 From Coq Require Import List Bool NArith String.
-From PyxisModel Require Import Base Grammar SemTypes Registry Sem SemLemmas TotalityLemmas Confluence.
+From Coq Require Import Permutation.
+From PyxisModel Require Import Base Grammar SemTypes Registry Sem SemLemmas TotalityLemmas Confluence WholeBuild
+     Monotone OrderIndep.
 Import ListNotations.
 
 Theorem C10_stuck_never_resolves :
@@ -63,3 +68,17 @@ Theorem C10_rounds : forall order fuel st,
   (List.length (reg_unresolved (st_reg st)) < fuel)%nat -> resolve_loop order fuel st <> BFuel.
 Proof. intros order fuel st H Hl. now apply resolve_loop_fuel_suffices. Qed.
 Print Assumptions C10_rounds.
+
+(** ** the no-progress verdict and its list do not depend on the schedule *)
+Theorem C10_stuck_set_is_order_independent : forall ptr mods st0 o1 o2 l1,
+  input_state ptr mods = Ok st0 -> collision_free (st_reg st0) -> clean_stateb st0 = true ->
+  (forall l, Permutation (o1 l) l) -> (forall l, Permutation (o2 l) l) ->
+  let fuel := S (List.length (reg_unresolved (st_reg st0))) in
+  resolve_loop o1 fuel st0 = BNoProgress l1 ->
+  exists l2, resolve_loop o2 fuel st0 = BNoProgress l2 /\ Permutation l1 l2.
+Proof.
+  intros ptr mods st0 o1 o2 l1 Hin Hcf Hcl P1 P2 fuel H1.
+  pose proof (pyxis_loop_order_independent ptr mods st0 o1 o2 Hin Hcf Hcl P1 P2) as H. cbn zeta in H.
+  fold fuel in H. rewrite H1 in H. destruct (resolve_loop o2 fuel st0); cbn in H; try contradiction. eauto.
+Qed.
+Print Assumptions C10_stuck_set_is_order_independent.
